@@ -29,19 +29,14 @@ func pureEff() effects {
 func allocEff() effects {
 	e := pureEff()
 	e.allocs = true
-	for _, hs := range heapSorts {
-		e.sorts[hs] = true
-	}
 	return e
 }
 
 func bufEff() effects {
 	e := pureEff()
 	e.sorts[SInt] = true
+	e.sorts[SBV(8)] = true
 	e.allocs = true
-	for _, hs := range heapSorts {
-		e.sorts[hs] = true
-	}
 	return e
 }
 
@@ -52,7 +47,7 @@ func (e *Engine) extraPrelude() string {
 	sb.WriteString("(declare-fun fp_dir (Str) Str)\n(declare-fun fp_base (Str) Str)\n(declare-fun fp_join (Str Str) Str)\n(declare-fun fp_abs (Str) Str)\n(declare-fun fp_rel (Str Str) Str)\n(declare-fun fp_relok (Str Str) Bool)\n(declare-fun fp_isabs (Str) Bool)\n(declare-fun s_lower (Str) Str)\n")
 	sb.WriteString("(assert (forall ((s Str)) (! (and (<= 0 (s_len (p_ext s))) (<= (s_len (p_ext s)) (s_len s)) (= (p_ext s) (s_sub s (- (s_len s) (s_len (p_ext s))) (s_len s)))) :pattern ((p_ext s)))))\n")
 	sb.WriteString("(assert (forall ((s Str)) (! (>= (s_len (p_clean s)) 1) :pattern ((p_clean s)))))\n")
-	sb.WriteString("(assert (forall ((s Str)) (! (>= (s_len s) 0) :pattern ((s_len s)))))\n")
+	sb.WriteString("(assert (forall ((s Str)) (! (and (>= (s_len s) 0) (<= (s_len s) 70368744177664)) :pattern ((s_len s)))))\n")
 	sb.WriteString("(assert (forall ((a Str) (b Str)) (! (= (s_len (s_cat a b)) (+ (s_len a) (s_len b))) :pattern ((s_cat a b)))))\n")
 	return sb.String()
 }
@@ -541,6 +536,43 @@ func init() {
 		fc.assume(And(Ge(n, IntLit(1)), Le(n, IntLit(1<<20))))
 		return fc.intRes(n)
 	})
+}
+
+func init() {
+	reg := func(name string, eff effects, fn libFn) { libModels[name] = libModel{eff, fn} }
+	// klauspost/reedsolomon (assumed contract A-rs8): New validates its arguments and returns an
+	// error instead of panicking; Encode/Verify/Reconstruct never panic on a shard list of the
+	// right length, write only into the shard list and its shards, and report problems as errors.
+	reg("github.com/klauspost/reedsolomon.New", allocEff(), func(fc *FnCtx, cc *ssa.CallCommon, args []Value, pos token.Pos, res ssa.Value) Value {
+		enc := IfaceV(fc.freshConst("rs.typ", SInt), fc.freshConst("rs.val", SInt))
+		err := fc.freshErr("rsnewerr")
+		fc.assume(Implies(Eq(err.E[0].T, IntLit(0)), Not(Eq(enc.E[0].T, IntLit(0)))))
+		fc.assume(Ge(enc.E[0].T, IntLit(0)))
+		return retTuple(enc, err)
+	})
+	reg("github.com/klauspost/reedsolomon.WithPAR1Matrix", allocEff(), func(fc *FnCtx, cc *ssa.CallCommon, args []Value, pos token.Pos, res ssa.Value) Value {
+		return Leaf(fc.freshConst("rsopt", SInt))
+	})
+	rsShards := func(name string, writes bool, results func(fc *FnCtx) Value) {
+		libIfaceModels["Encoder."+name] = func(fc *FnCtx, cc *ssa.CallCommon, args []Value, pos token.Pos, res ssa.Value) Value {
+			fc.usedAssumed["lib:klauspost/reedsolomon Encoder."+name+" (A-rs8: GF(2^8) PAR1 coder; no panic, writes only the shards)"] = true
+			sh := args[1]
+			if writes && sh.K == KSlice {
+				st := fc.cur
+				// shard headers and shard bytes may change
+				st.heap[SInt] = Store(st.heap[SInt], sh.Obj(), fc.freshConst("rsshards", SArr(SInt, SInt)))
+				st.heap[SBV(8)] = fc.freshConst("rsbytes", heapSort(SBV(8)))
+				nn := fc.freshConst("next_rs", SInt)
+				fc.assume(Ge(nn, st.next))
+				st.next = nn
+				fc.commitHeaps()
+			}
+			return results(fc)
+		}
+	}
+	rsShards("Reconstruct", true, func(fc *FnCtx) Value { return fc.freshErr("rserr") })
+	rsShards("Encode", true, func(fc *FnCtx) Value { return fc.freshErr("rserr") })
+	rsShards("Verify", false, func(fc *FnCtx) Value { return retTuple(Leaf(fc.freshConst("rsok", SBool)), fc.freshErr("rserr")) })
 }
 
 func (e *Engine) typeIDByName(name string) int64 {
